@@ -453,6 +453,7 @@ func (w *World) TruncateChecked(n *Node, d *Driver, race bool) {
 		}
 		w.EvalFor("C07", 1)
 		w.Res.Count("c07_reoffers", 1)
+		w.NontrivFor("C07", fmt.Sprintf("reoffer/kind%d/refused=%v/truncations%d", kind, err != nil, w.Res.Counters["c07_truncations"]%4))
 		if err == nil {
 			w.Violate("C07", fmt.Sprintf("checkpointed-resubmission-accepted/kind%d", kind), fmt.Sprintf("node %s: re-submission (kind %d) of checkpointed vertex/transaction %s was accepted", n.Name, kind, Hex(h)))
 		} else if kind != 1 && !n.BackgroundMayAct(prevSnap) && !n.BackgroundMayAct(n.Prev) && n.Prev.Digest() != dg {
@@ -499,6 +500,7 @@ func (w *World) checkStoredFunds(n *Node, s *Snap) {
 		f := get(a)
 		net := new(big.Int).Sub(f.in, f.out)
 		w.Res.Count("c07_checkpoint_funds_checked", 1)
+		w.NontrivFor("C07", fmt.Sprintf("funds/in=%v/out=%v/net0=%v/extra=%v", f.in.Sign() > 0, f.out.Sign() > 0, net.Sign() == 0, isExtra(w, a)))
 		if net.Sign() < 0 {
 			// only reachable through the C02 cross-branch finding (a wallet overdrawn over merged branches): the code
 			// then stores the inflow alone; the address is not judged on this node from now on
@@ -556,3 +558,12 @@ func diffVertex(a, b *accountant.Vertex) string {
 }
 
 var errNotLong = errors.New("ledger not long enough")
+
+func isExtra(w *World, addr string) bool {
+	for _, e := range w.Extra {
+		if e.Addr == addr {
+			return true
+		}
+	}
+	return false
+}
